@@ -113,7 +113,6 @@ class ExponentialOfLevyModel(LevyModel):
             cumulant=levy_model.cumulant,
         )
         self.spot = spot
-        self.log_spot = np.log(spot)
         self.r = r
         self.d = d
         self.levy_model = levy_model
@@ -130,6 +129,11 @@ class ExponentialOfLevyModel(LevyModel):
         return "ExponentialOfLevyModel(spot={spot}, r={r}, d={d}, levy_model={levy_model})".format(
             spot=self.spot, r=self.r, d=self.d, levy_model=repr(self.levy_model)
         )
+
+    @property
+    def log_spot(self) -> float:
+        """logarithm of the (current) spot"""
+        return np.log(self.spot)
 
     def dimension(self) -> int:
         return self.levy_model.dimension()
